@@ -172,6 +172,10 @@ fn gen_session(r: &mut Rng, with_delete: bool) -> Session {
         g.funcs.push(nm);
         g.nomerge = None;
     }
+    let m_ix = g.p.decls.len();
+    g.p.decls.push(Decl { name: "M".into(), kind: Kind::Ctor, args: vec![Sort::I, Sort::S] });
+    let w_ix = g.p.decls.len();
+    g.p.decls.push(Decl { name: "W".into(), kind: Kind::Ctor, args: vec![Sort::S, Sort::I] });
     let mut cmds: Vec<String> = Vec::new();
     let mut kinds: Vec<&'static str> = Vec::new();
     let mut globals: Vec<Vec<String>> = vec![vec![]];
@@ -204,6 +208,37 @@ fn gen_session(r: &mut Rng, with_delete: bool) -> Session {
             cmds.push("(run marks 1)".to_string());
             kinds.push("run");
             ("(print-size Mark)".to_string(), "print-size")
+        } else if k < 11 {
+            // a subsumed e-node whose eq-sort child is then moved to another leader (older or
+            // newer, depending on which of the two terms is inserted first); the constructor mixes
+            // a primitive and an eq-sort input or is unary; subsumed explicitly or by a rewrite
+            let which = g.r.below(3);
+            let n = g.r.below(3);
+            let c = g.term(d.min(1));
+            let o = g.term(d.min(1));
+            let (ct, ot) = (g.p.pat_text(&c), g.p.pat_text(&o));
+            let row = match which {
+                0 => g.p.pat_text(&Pat::App(m_ix, vec![Pat::Int(n as i64), c.clone()])),
+                1 => g.p.pat_text(&Pat::App(w_ix, vec![c.clone(), Pat::Int(n as i64)])),
+                _ => g.p.pat_text(&Pat::App(*g.r.pick(&g.unary), vec![c.clone()])),
+            };
+            let first_row = g.r.chance(1, 2);
+            for t in if first_row { [row.clone(), ot.clone()] } else { [ot.clone(), row.clone()] } {
+                cmds.push(t);
+                kinds.push("insert");
+            }
+            if which == 0 && g.r.chance(1, 3) {
+                cmds.push("(run rws 1)".to_string()); // (rewrite (M i x) (W x i) :subsume)
+                kinds.push("run");
+            } else {
+                cmds.push(format!("(subsume {row})"));
+                kinds.push("subsume");
+            }
+            cmds.push(format!("(union {ot} {ct})"));
+            kinds.push("union");
+            cmds.push("(run marks 1)".to_string());
+            kinds.push("run");
+            ("(print-size Mark)".to_string(), "subsume-then-move")
         } else if k < 38 {
             // base generator: inserts, unions, sets, rules, runs, subsume/delete
             let c = g.command();
@@ -373,6 +408,10 @@ fn gen_session(r: &mut Rng, with_delete: bool) -> Session {
     for &u in &g.unary {
         header.push(format!("(rule ((= x ({} y))) ((Mark x)) :ruleset marks)", p.decls[u].name));
     }
+    header.push("(rule ((= x (M i y))) ((Mark x)) :ruleset marks)".to_string());
+    header.push("(rule ((= x (W y i))) ((Mark x)) :ruleset marks)".to_string());
+    header.push("(ruleset rws)".to_string());
+    header.push("(rewrite (M i x) (W x i) :subsume :ruleset rws)".to_string());
     Session { p, header, cmds, kinds, cons_cmds: None }
 }
 
@@ -400,6 +439,16 @@ fn gen_cons_session(r: &mut Rng) -> Session {
         num = Some(decls.len());
         decls.push(Decl { name: "N".into(), kind: Kind::Ctor, args: vec![Sort::I] });
     }
+    // constructors whose inputs mix a primitive and an eq-sort column, in both orders
+    let mut mixed: Vec<(usize, bool)> = Vec::new();
+    if r.chance(1, 2) {
+        mixed.push((decls.len(), true));
+        decls.push(Decl { name: "M".into(), kind: Kind::Ctor, args: vec![Sort::I, Sort::S] });
+    }
+    if r.chance(1, 3) {
+        mixed.push((decls.len(), false));
+        decls.push(Decl { name: "W".into(), kind: Kind::Ctor, args: vec![Sort::S, Sort::I] });
+    }
     let mut g = Gen { r, bias: Bias::C01, p: Program { decls, cmds: vec![] }, nullary, unary, binary, num, funcs: vec![], rels: vec![], nomerge: None, pending: vec![] };
     let n = g.r.range(3, 12);
     let mut cs = Vec::new();
@@ -418,6 +467,23 @@ fn gen_cons_session(r: &mut Rng) -> Session {
             Cmd::Act(Action::Expr(t))
         } else {
             Cmd::Act(Action::Union(g.term(d), g.term(d)))
+        };
+        // sometimes under a mixed constructor
+        let wrap = |g: &mut Gen, t: Pat| -> Pat {
+            if mixed.is_empty() || !g.r.chance(1, 3) {
+                return t;
+            }
+            let (m, int_first) = mixed[g.r.below(mixed.len())];
+            let z = Pat::Int(g.r.below(3) as i64);
+            Pat::App(m, if int_first { vec![z, t] } else { vec![t, z] })
+        };
+        let c = match c {
+            Cmd::Act(Action::Expr(t)) => Cmd::Act(Action::Expr(wrap(&mut g, t))),
+            Cmd::Act(Action::Union(a, b)) => {
+                let a = wrap(&mut g, a);
+                Cmd::Act(Action::Union(a, wrap(&mut g, b)))
+            }
+            other => other,
         };
         cs.push(c);
     }
@@ -888,7 +954,7 @@ impl<'a> RuleConv<'a> {
 }
 
 /// Some(Gallina list of the six maintenance rulesets) for the declarations in `header`
-fn encoded_rules_coq(p: &Program, header: &[String]) -> Option<String> {
+fn encoded_rules_coq(p: &Program, header: &[String]) -> Option<(String, String)> {
     let mut eg = mk(Mode::Term);
     let cmds = eg.resolve_program(None, &header.join("\n")).ok()?;
     let parsed: Vec<Sx> = cmds.iter().flat_map(|c| parse_sx(&c.to_string())).collect();
@@ -920,20 +986,25 @@ fn encoded_rules_coq(p: &Program, header: &[String]) -> Option<String> {
                 if let Some(f) = ctor_ix(&name[k + "to_delete_".len()..]) {
                     tabs.insert(name.clone(), 3 + 2 * f);
                 }
-            } else if name.contains("to_subsume_") {
+            } else if let Some(k) = name.find("to_subsume_") {
+                if let Some(f) = ctor_ix(&name[k + "to_subsume_".len()..]) {
+                    tabs.insert(name.clone(), 1000 + f);
+                }
                 subs.insert(name.clone());
             }
         }
     }
     let mut rulesets: Vec<Vec<String>> = vec![vec![]; 6];
+    let mut sub_rules: Vec<String> = Vec::new();
     for c in &parsed {
         let Sx::L(l) = c else { continue };
         if l.first().and_then(atom).as_deref() != Some("rule") {
             continue;
         }
         let text = format!("{c:?}");
-        if subs.iter().any(|s| text.contains(s.as_str())) {
-            continue; // rules over the __to_subsume tables: not modelled
+        let over_sub = subs.iter().any(|s| text.contains(s.as_str()));
+        if over_sub && text.contains("A(\"subsume\")") {
+            continue; // __delete_rule_subsume: its (subsume ..) action is not modelled
         }
         let rs_name = l.iter().position(|x| atom(x).as_deref() == Some(":ruleset")).and_then(|k| atom(&l[k + 1])).unwrap_or_default();
         let rs = if rs_name.contains("single_parent") {
@@ -1004,13 +1075,25 @@ fn encoded_rules_coq(p: &Program, header: &[String]) -> Option<String> {
                 let Sx::L(cl) = &al[1] else { return None };
                 let (t, es) = cv.call_exprs(cl)?;
                 actions.push(format!("ADel {t} [{}]", es.join("; ")));
+            } else if tabs.contains_key(&h) {
+                // (Tab args..): a row of a constructor table is written
+                let (t, es) = cv.call_exprs(al)?;
+                actions.push(format!("ASet {t} [{}] (EUnit)", es.join("; ")));
             } else {
                 return None;
             }
         }
-        rulesets[rs].push(format!("mkRule [{}] [{}] [{}]", atoms.join("; "), guards.join("; "), actions.join("; ")));
+        let r = format!("mkRule [{}] [{}] [{}]", atoms.join("; "), guards.join("; "), actions.join("; "));
+        if over_sub {
+            sub_rules.push(r);
+        } else {
+            rulesets[rs].push(r);
+        }
     }
-    Some(format!("[{}]", rulesets.iter().map(|r| format!("[{}]", r.join("; "))).collect::<Vec<_>>().join("; ")))
+    Some((
+        format!("[{}]", rulesets.iter().map(|r| format!("[{}]", r.join("; "))).collect::<Vec<_>>().join("; ")),
+        format!("[{}]", sub_rules.join("; ")),
+    ))
 }
 
 fn record(viols: &mut Vec<Viol>, v: Viol) {
@@ -1140,13 +1223,13 @@ fn main() {
                 }
                 let arities = coq_list(&s.p.decls, |d| coq_list(&d.args, |a| if *a == Sort::S { "true".to_string() } else { "false".to_string() }));
                 let rules = match encoded_rules_coq(&s.p, &s.header) {
-                    Some(r) => {
+                    Some((r, sub)) => {
                         enc_rules_emitted += 1;
-                        format!("(Some {r})")
+                        format!("(Some {sub}) (Some {r})")
                     }
                     // the encoder's output no longer has the expected shape: an empty program never
                     // equals the templates, so the case fails and the link is reported broken
-                    None => "(Some [])".to_string(),
+                    None => "None (Some [])".to_string(),
                 };
                 w.push(format!(
                     "(mkCase2 (mkCase {} {} {} {}) {})",
@@ -1157,7 +1240,7 @@ fn main() {
                     rules
                 ));
             } else {
-                w.push("(mkCase2 (mkCase [] [] [] []) None)".to_string());
+                w.push("(mkCase2 (mkCase [] [] [] []) None None)".to_string());
             }
         }
         if let Some(v) = r.viol {
